@@ -31,6 +31,9 @@ def configure():
     # of every symbolic int reachable from an object that is merely interpolated into an f-string
     # (e.g. str(Not(Equals(x)))). Our harnesses never format symbolic str, so CPython's format runs.
     cc._PATCH_REGISTRATIONS.pop(format, None)
+    # (v) builtin repr(): CrossHair's model renders a 1-tuple as "('x')" (no trailing comma) - found by
+    # the fidelity self-check of C15. CPython's repr runs; symbolic objects still provide __repr__.
+    cc._PATCH_REGISTRATIONS.pop(repr, None)
     # (iii) no symbolic clock
     for f in (_t.time, _t.time_ns, _t.monotonic, _t.monotonic_ns, _t.process_time,
               _t.process_time_ns):
